@@ -75,6 +75,17 @@ Theorem C15_env_fixed : forall r s a inherited e k v,
 Proof. exact env_fixed. Qed.
 Print Assumptions C15_env_fixed.
 
+(* For the NEXTEST-prefixed variables the side condition is what nextest itself enforces on
+   setup scripts (parse_env_file rejects keys starting with NEXTEST). *)
+Theorem C15_env_fixed_nextest_keys : forall r s a inherited e k v,
+  test_assignments r s a inherited = Some e ->
+  (forall k' v', In (k', v') (ac_setup_env a) -> is_prefix K.NEXTEST k' = false) ->
+  In (k, v) (nextest_fixed r s a) ->
+  is_prefix K.NEXTEST k = true ->
+  child_env_get k e inherited = Some v.
+Proof. exact env_fixed_nextest_keys. Qed.
+Print Assumptions C15_env_fixed_nextest_keys.
+
 (* The part of it that TestInstance::make_command alone establishes (tied by hook H5). *)
 Theorem C15_env_fixed_make_command : forall r s inherited e k v,
   make_command_assignments r s inherited = Some e ->
